@@ -9,6 +9,7 @@ mod window;
 fn run_case(fam: &str, args: &[i128]) -> Vec<i128> {
     match fam {
         f if f.starts_with("window_") => window::run(&f[7..], args),
+        f if f.starts_with("windowbig_") => window::run_big(&f[10..], args),
         _ => panic!("unknown family {fam}"),
     }
 }
